@@ -8,7 +8,11 @@ TRUSTED_BASE = [
     "HashMap/DashMap as finite maps, VecDeque as a list, monotone Instant, fastrand as an arbitrary choice < len",
 ]
 
-HOOK_COMMITS = []
+HOOK_COMMITS = [
+    "f518ce9e89af33be127441eb77c949ae8b13801b",   # H2 dump/age closures + hook API (cachelito_core::verif)
+    "ad9f6206a4ed585ee68ca44747c6976aeb4fdd0d",   # H1 yield points before every lock acquisition
+    "c012f53beae847c4b0ebb6615d9afb207e26f42c",   # H1 correction: three hold markers on statement temporaries dropped
+]
 
 ALL_POLICIES = ["fifo", "lru", "lfu", "arc", "random", "tlru"]
 
@@ -41,6 +45,10 @@ def sched_stream(nontrivial=(), quick=(6, 4, 120), thorough=(14, 8, 400), what="
 def hammer_stream(quick=(3, 8, 400), thorough=(10, 12, 1500)):
     return {"kind": "hammer", "budget": {"quick": quick, "thorough": thorough}, "nontrivial": [],
             "what": "free-running parallel stress: 8-12 real threads call plain generated functions (sync global and async) whose results are already stored, with large values; any body execution or wrong value is a violation for SOME real schedule (the scheduler of the L3 stream serialises threads and cannot contend inside DashMap shards)"}
+
+def static_stream():
+    return {"kind": "static", "nontrivial": [],
+            "what": "static lock inventory of the CURRENT source (checklib/static_sites.py): every parking_lot acquisition expression in the non-test, non-hook code of cachelito-core and the macro crates is preceded by its H1 yield point (64 sites), every declared lock object belongs to the known set (rank table of Conc.lean), no guard bound by let is in scope at an .await in the async engine / async macro"}
 
 def lines_stream(bin_, mode, args, quick, thorough, what, nontrivial_re="."):
     return {"kind": "lines", "bin": bin_, "mode": mode, "args": args, "n": {"quick": quick, "thorough": thorough},
@@ -203,7 +211,7 @@ PROPS = {
     },
     "C17": {
         "lean_modules": ["Cachelito.Props.C17"],
-        "streams": [sched_stream(nontrivial=["nested-acquisition"])],
+        "streams": [sched_stream(nontrivial=["nested-acquisition"]), static_stream()],
         "monitors": ["C17"],
         "rule": "scheduled runs of real threads; a run is non-trivial when some thread acquired a lock while holding another (nesting is what can deadlock); distinct by (schedule, event trace)",
         "level_text": "Lean theorems: for any number of threads running operations whose lock skeletons are rank-disciplined (every nested acquisition strictly increases the rank registry < queue mutex < store lock), in every reachable state with an unfinished thread some thread is enabled (also under writer preference and any work-conserving granting policy), every maximal run finishes all threads, and EVERY operation of cachelito (46-entry skeleton table, any universe of caches) is rank-disciplined; the pre-fix conditional-invalidation callback is not, with a kernel-checked deadlocked state. Tied to the code by recording every real lock acquisition/release (hook H1) under a deterministic scheduler: each operation's real trace must be a path of its skeleton and rank-ordered; no explored schedule deadlocks.",
@@ -214,7 +222,7 @@ PROPS = {
     "C20": {
         "lean_modules": ["Cachelito.Props.C20"],
         "streams": [macro_stream(nontrivial=["c20-suspended", "c20-dropped", "c20-resumed"], quick=300,
-                                 what="L2 with manual polling: real #[cache_async] functions whose bodies have 1-3 await points (a gate future) are polled until they suspend at a chosen await; while suspended a conditional invalidation of the same cache must complete on another thread (3 s watchdog), arbitrary other calls (same and other arguments) and invalidations run, then the call is resumed or dropped; outputs and the dump of every cache instance compared with Cachelito.aStep per operation")],
+                                 what="L2 with manual polling: real #[cache_async] functions whose bodies have 1-3 await points (a gate future) are polled until they suspend at a chosen await; while suspended a conditional invalidation of the same cache must complete on another thread (3 s watchdog), arbitrary other calls (same and other arguments) and invalidations run, then the call is resumed or dropped; outputs and the dump of every cache instance compared with Cachelito.aStep per operation"), static_stream()],
         "monitors": ["C20"],
         "rule": "episodes over real async generated functions with begin / resume / drop operations at every await point (k-th of 1..3) interleaved with other operations; non-trivial = a call actually suspended in its body, resumed, or dropped",
         "level_text": "Lean theorems: (locks) after any complete operation skeleton - in particular the lookup phase of an async call - the held set is empty, and threads that hold nothing and are never scheduled cannot block the others (C17.suspended_holds_nothing, progress_despite_suspended); (data) over the model of suspended calls (Async.lean: lookup phase, pending record, finish phase on the CURRENT state): a call begun and resumed at once is exactly an ordinary call; the lookup phase adds or changes no entry; every entry of every cache comes from a COMPLETED call (a value no completed call produced is nowhere); begin; h; drop leaves exactly the state of `lookup only; h` for every history h (pending records never influence other operations); a resume is the ordinary store on the current state, preserves the invariant and the entry limit, returns the body value and (async) leaves the fresh entry stored unless rejected or oversize. The model is compared with the real code per operation.",
@@ -224,7 +232,7 @@ PROPS = {
     },
     "C18": {
         "lean_modules": ["Cachelito.Props.C18"],
-        "streams": [sched_stream(nontrivial=["nested-acquisition", "concurrent-call"]), hammer_stream()],
+        "streams": [sched_stream(nontrivial=["nested-acquisition", "concurrent-call"]), hammer_stream(), static_stream()],
         "monitors": ["C18"],
         "rule": "scheduled runs of 2-3 real threads (calls overflowing a hot cache, group and conditional invalidations) followed by quiescent dumps and a 5-call sequential probe; non-trivial = a run with nested acquisitions or concurrent calls; distinct by (schedule, event trace)",
         "level_text": "Lean theorems over a data-carrying interleaving model (one atomic micro-step per critical section, any number of threads, programs and schedules): every call returns f(k) for its own key; ASYNC: the store/queue invariant, the entry limit and the memory bound hold after EVERY micro-step; SYNC (store write precedes the queue push): at every point stored keys missing from the queue belong to in-flight stores and |store| <= limit + |in flight|; at quiescence every stored key is queued (evictable, expirable, invalidatable), the queue is duplicate-free, |store| <= limit under every policy and total memory <= max_memory; sequential use after quiescence keeps the bounds and correct values under the weaker invariant (orphan queue keys allowed); a one-thread system is exactly Cachelito.run. The pre-fix clear (F6) and async expired lookup (F8) are refuted with concrete schedules. Tied to the code by the scheduled runs: every recorded REAL schedule (one thread id per critical section, derived from the hook events) is replayed on the interleaving model (ConcData.creplay) from the dumped initial state and must reproduce the final store/queue and every lookup result; plus values per call, quiescent dumps checked directly, probe history vs the model from the dumped state, lock traces vs skeletons; plus a free-running parallel stress stream.",
